@@ -1,0 +1,22 @@
+//go:build verif
+
+package record
+
+// Contracts for /verif (gvc). Comment-only file; see /verif/DESIGN.md.
+
+// Read-only column accessors: trusted frames (bodies index column buffers through unsafe re-views).
+//@ func (*ColVal).IntegerValue
+//@   trusted reads the column buffer only
+//@   assigns nothing
+//@ func (*ColVal).FloatValue
+//@   trusted reads the column buffer only
+//@   assigns nothing
+//@ func (*ColVal).BooleanValue
+//@   trusted reads the column buffer only
+//@   assigns nothing
+//@ func (*ColVal).BytesUnsafe
+//@   trusted reads the column buffer only
+//@   assigns nothing
+//@ func (*ColVal).IsNil
+//@   trusted reads the bitmap only
+//@   assigns nothing
